@@ -248,7 +248,12 @@ def command_of(s, journal):
             parts.append("mkdir -p '%s'" % d)
         parts.append("echo %s > '%s'" % (s["name"], w))
     parts.append("printf 'E %%s %%s\\n' %s \"$(date +%%s%%N)\" >> %s" % (s["name"], q))
-    parts.append("exit %d" % s["exit"])
+    # "killed": the command fails by dying from a signal instead of exiting non-zero (the model sees a failure
+    # either way: exit is non-zero in the spec)
+    # A third of the failing steps (chosen by name, so that a spec stays a replayable input) fail this way.
+    import zlib
+    killed = s["exit"] != 0 and (s.get("killed") or zlib.crc32(s["name"].encode()) % 3 == 0)
+    parts.append("kill -KILL $$" if killed else "exit %d" % s["exit"])
     return "; ".join(parts)
 
 
@@ -507,8 +512,31 @@ def run_spec(env, spec, certify=None, bound=HANG_BOUND, keep=False):
                 with open(os.path.join(root, f), "w") as fh:
                     fh.write(txt)
                 view["files"][f] = txt
+            # steps added between the two runs (with the step commands of the CLI: an import would drop the records
+            # of the first run): e.g. a producer whose declared output matches a glob another step already recorded
+            add_err = ""
+            for st in copy.deepcopy(sec.get("add_steps", [])):
+                cmds = [["pipeline", "step", "new", "-s", st["name"], "-c", command_of(st, journal),
+                         "--when", {"D": "by_dependencies", "A": "always", "N": "never"}[st["when"]]]]
+                dargs = []
+                for d in st["deps"]:
+                    dargs += {"step": ["--step", d[1]], "file": ["--file", d[1]], "glob": ["--glob", d[1]],
+                              "glob_items": ["--glob_items", d[1]], "lines": ["--lines", d[1]], "regex": ["--regex", d[1]]}[d[0]]
+                if dargs:
+                    cmds.append(["pipeline", "step", "dependency", "-s", st["name"]] + dargs)
+                if st["outs"]:
+                    oa = []
+                    for o in st["outs"]:
+                        oa += ["--output-" + output_kind(o).lower(), o]
+                    cmds.append(["pipeline", "step", "output", "-s", st["name"]] + oa)
+                for c in cmds:
+                    p2 = subprocess.run([env.xvc] + c, cwd=root, env=e, stdout=subprocess.PIPE, stderr=subprocess.PIPE, text=True,
+                                        errors="replace", timeout=300)
+                    if p2.returncode != 0 or "[ERROR]" in p2.stderr + p2.stdout or "panicked" in p2.stderr:
+                        add_err += (p2.stderr + p2.stdout)[-300:]
+                view["steps"].append(st)
             rr2 = RunResult()
-            rr2.spec, rr2.base, rr2.import_failed, rr2.import_err = view, base, False, ""
+            rr2.spec, rr2.base, rr2.import_failed, rr2.import_err = view, base, bool(add_err), add_err
             rr2.export_failed = rec is None
             _one_run(env, view, rr2, root, base, e, certify, bound)
             out.append(rr2)
@@ -1005,6 +1033,18 @@ def two_run_spec(rng, label="tworun"):
                 sec["edit"][f] = "edited\n"
         sp["second"] = sec
         return sp
+
+
+def late_producer_spec(rng, kind=None, label="late-producer"):
+    """run 1: a reader with a glob / glob-items dependency over files that exist (the items get recorded); then a
+    producer is ADDED whose declared output matches the pattern but is not among the recorded items, an input of
+    the reader is edited, and run 2 must start the reader only after the producer has ended."""
+    kind = kind or rng.choice(["glob_items", "glob_items", "glob"])
+    sp = mkspec([step("reader", dur=20, deps=[(kind, "data/*.txt")])], pool=2, jitter=rng.randrange(1, 1 << 30),
+                files={"data/a.txt": "a\n", "data/c.txt": "c\n"}, label=label)
+    prod = step("producer", dur=rng.choice([150, 300]), outs=["data/b.txt"])
+    sp["second"] = {"touch": [], "edit": {"data/a.txt": "edited\n"}, "jitter": rng.randrange(1, 1 << 30), "add_steps": [prod]}
+    return sp
 
 
 # ---------------------------------------------------------------------------------------------
